@@ -72,6 +72,7 @@ func cmdVC(args []string) {
 	dump := fs.String("dump", "", "write scripts of failing obligations to this dir")
 	timeout := fs.Int("timeout", 5, "solver timeout (s)")
 	all := fs.Bool("all", false, "dump all")
+	prop := fs.String("prop", "", "property (for relevance-sliced inlining)")
 	fs.Parse(args)
 	e, err := loadEngine(repoDir(), verifDir()+"/specs")
 	if err != nil {
@@ -80,11 +81,12 @@ func cmdVC(args []string) {
 	}
 	var obls []*Obligation
 	var fts []*FT
+	e.curProp = *prop
 	for _, f := range e.allFuncs {
 		key := e.funcKey(f)
 		match := false
 		for _, a := range fs.Args() {
-			if strings.HasSuffix(key, "::"+a) || key == a {
+			if strings.HasSuffix(key, "::"+a) || key == a || (strings.Contains(a, "::") && strings.HasSuffix(key, "/"+a)) {
 				match = true
 			}
 		}
